@@ -57,7 +57,7 @@ func init() {
 			k := u.Str("kind")
 			return twoDocs(u) && (k == "arr" || k == "arr2")
 		}}},
-		Rule: "units = nesting depth 1..3 x per-level limit option (9 options incl. maxItems 0; 4 at depth 3 in the quick tier) x element kind (integer | object with required key) x 6 positions; documents = uniform nested arrays for every vector of per-level lengths 0..3, ragged arrays, one with an invalid element, absent, null. distinct_nontrivial = distinct (unit, document) pairs with a definite reference verdict",
+		Rule:     "units = nesting depth 1..3 x per-level limit option (9 options incl. maxItems 0; 4 at depth 3 in the quick tier) x element kind (integer | object with required key) x 6 positions; documents = uniform nested arrays for every vector of per-level lengths 0..3, ragged arrays, one with an invalid element, absent, null. distinct_nontrivial = distinct (unit, document) pairs with a definite reference verdict",
 		ExtraCfg: func(tier string) string { return "  Tier = \"" + tier + "\"\n" }}
 }
 
@@ -95,7 +95,7 @@ func init() {
 			{Module: "IntSizeInd", Inv: "SameAccept", Expect: "NoError", What: "for ALL constants and every int64 value: accepted with --min-sized-ints iff it satisfies every stated bound (the removed checks are implied by the type)"},
 			{Module: "IntSizeInd", Inv: "SameAcceptCrossed", Expect: "Error", What: "with the removal flags crossed (before fix 1f591fd) the accepted sets differ: the deviation switch is necessary"},
 		},
-		Rule: "units = integer schemas whose lower and upper side are each absent | minimum v | numeric exclusive v | minimum v + boolean exclusive, v = landmark+{-1,0,1} around 0 and the 8/16-bit (quick) plus 32/64-bit (thorough) signed and unsigned limits, each generated with --min-sized-ints off and on; documents = every landmark+{-2..1} inside int64. Both programs must give the reference verdict on every document (hence equal accepted sets) and the Go type read by reflection from the compiled program must be a narrowest type holding the admitted interval. distinct_nontrivial = distinct (unit, document) pairs with a definite reference verdict",
+		Rule:     "units = integer schemas whose lower and upper side are each absent | minimum v | numeric exclusive v | minimum v + boolean exclusive, v = landmark+{-1,0,1} around 0 and the 8/16-bit (quick) plus 32/64-bit (thorough) signed and unsigned limits, each generated with --min-sized-ints off and on; documents = every landmark+{-2..1} inside int64. Both programs must give the reference verdict on every document (hence equal accepted sets) and the Go type read by reflection from the compiled program must be a narrowest type holding the admitted interval. distinct_nontrivial = distinct (unit, document) pairs with a definite reference verdict",
 		ExtraCfg: func(tier string) string { return "  Tier = \"" + tier + "\"\n" }}
 }
 
